@@ -153,6 +153,12 @@ pub fn run(toks: &[&str]) -> String {
             }
         }
         else if parts[0] == "D" { let _ = std::fs::remove_file(w.join(&name)); std::fs::create_dir_all(w.join(&name)).unwrap(); }
+        // L: a symbolic link whose target is the file's text (e.g. itself: a loop)
+        else if parts[0] == "L" {
+            let _ = std::fs::remove_file(w.join(&name));
+            #[cfg(unix)]
+            { let _ = std::os::unix::fs::symlink(String::from_utf8_lossy(&crate::codec::unhex(parts[2])).to_string(), w.join(&name)); }
+        }
         i += 1;
     } }
     let out = Command::new(&slicec).args(&argv).current_dir(&w).env("FAKEGEN_DIR", dir.join("gens")).env("NO_COLOR", "1").output();
